@@ -466,6 +466,43 @@ Section Main2.
     cbn [t_repl t_discard]. destruct (nt sl st x) as [t st1]. reflexivity.
   Qed.
 
+  (** only a braced-group node is recognised as [KGroup] *)
+  Lemma abstract2_kgroup x body : abs x = Some (KGroup body) ->
+    match x with NGroup _ _ _ _ _ _ => True | _ => False end.
+  Proof.
+    destruct x; intros H; try exact I; try discriminate H.
+    - rewrite abstract2_macro in H.
+      repeat (first [ match type of H with context [match ?X with _ => _ end] => destruct X end
+                    | match type of H with option_map _ ?X = _ => destruct X end ];
+              cbn [option_map] in H; try discriminate H).
+    - rewrite abstract2_env in H.
+      repeat (first [ match type of H with context [match ?X with _ => _ end] => destruct X end
+                    | match type of H with option_map _ ?X = _ => destruct X end ];
+              cbn [option_map] in H; try discriminate H).
+    - cbn [abstract2] in H.
+      repeat (first [ match type of H with context [match ?X with _ => _ end] => destruct X end
+                    | match type of H with option_map _ ?X = _ => destruct X end ];
+              cbn [option_map] in H; try discriminate H).
+    - rewrite abstract2_math in H. destruct (absb body0); discriminate H.
+  Qed.
+
+  (** the argument of an accent macro: [_groupnodecontents_to_text] of a recognised node is what
+      the specification puts the accent over *)
+  Lemma contents_sound2 x ka : P2 x -> abs x = Some ka ->
+    forall sl st, contents_text src lt cx o sl st x = (accent_contents acc o sl ka, st).
+  Proof.
+    intros [Hn HQ] Hx sl st.
+    assert (NG : match x with NGroup _ _ _ _ _ _ => False | _ => True end ->
+                 accent_contents acc o sl ka = rd1 sl ka).
+    { intros Hx'. destruct ka; try reflexivity. apply abstract2_kgroup in Hx. destruct x; contradiction. }
+    assert (Hn' := proj1 (Hn ka Hx) sl st).
+    destruct x as [p e m ch|p e m ch ps|p e m dl dr b|p e m nm ps a|p e m nm a b|p e m ch a|p e m d dl dr b|p e l];
+      try (cbn [contents_text]; rewrite (NG I); exact Hn').
+    - rewrite abstract2_group in Hx. destruct (_ && _); [|discriminate Hx].
+      destruct b as [[]|]; cbn [abs_body2 option_map] in Hx; try discriminate Hx.
+      destruct (absl items) as [bd|] eqn:Eb; [|discriminate Hx]. injection Hx as <-.
+      cbn [contents_text accent_contents]. exact (HQ bd Eb sl st None None eq_refl).
+  Qed.
 
   Theorem abstract2_sound_P2 : forall n, P2 n.
   Proof.
@@ -510,14 +547,14 @@ Section Main2.
           - split; [|reflexivity]. cbn [is_bare_macro bare_post]. now rewrite (no_arg_nodes_bare _ Ha). }
         destruct a as [[sp [|[x|] [|y l]]]|]; try (apply SYM; exact Hk).
         * (* one argument node *)
-          cbn [Pargs] in H. apply Forall_inv in H. cbn [Pslot] in H. destruct H as [Hn HQ].
+          cbn [Pargs] in H. apply Forall_inv in H. cbn [Pslot] in H. assert (HP2 := H). destruct H as [Hn HQ].
           destruct (list_eqb str_eqb sp [[123%N]]) eqn:Esp.
           -- apply list_eqb_brace in Esp. subst sp.
              destruct (accent_macro lt nm) as [comb|] eqn:Eacc.
              ++ destruct (abs x) as [ka|] eqn:Ex; [|discriminate Hk]. injection Hk as <-.
                 split; [|split; reflexivity]. intros sl st.
                 etransitivity; [exact (node_text_macro_accent src lt cx o sl st p e m nm ps x comb Eacc)|].
-                rewrite (proj1 (Hn ka Ex) sl st). reflexivity.
+                rewrite (contents_sound2 x ka HP2 Ex sl st), render1_accent. reflexivity.
              ++ destruct x as [| |p1 e1 m1 dl dr b| | | | |]; try discriminate Hk.
                 destruct (transparent_macro lt nm) eqn:Etr; [|discriminate Hk].
                 destruct b as [[| | | | | | |p2 e2 items]|]; cbn [abs_body2 option_map] in Hk; try discriminate Hk.
